@@ -155,6 +155,12 @@ class AbsStr:
     def copy_value(self, eng):
         return AbsStr(self.s)
 
+    def value_eq(self, eng, other):
+        return as_bool(z3.simplify(self.s == str_term(eng, other)))
+
+    def deref_cell(self, eng):
+        return Cell(self)     # &str is its own referent (str is unsized: only ever seen behind the reference)
+
     def __repr__(self):
         return f'str({self.s})'
 
